@@ -684,3 +684,74 @@ func serveLockWait(c *cx, id string) {
 	c.r.Floor(id, "guarded acquisitions reachable from handlers", len(used), len(serveLockAllowed))
 	c.r.Floor(id, "serve-goroutine call sites supporting a parameter fact", nsup, 1)
 }
+
+// callerAttrsCopied (E-alias, C06.15/C05.10): SendIQ, SendMessage and
+// SendPresence take the start element from the caller's token reader; the
+// token's attribute slice shares its backing array with whatever the reader
+// holds (a request template used for several calls). Every write through
+// X.Attr (an element assignment or an append whose first argument is X.Attr)
+// is preceded on every path by X = X.Copy() (or by an assignment of a freshly
+// allocated list to X.Attr). Otherwise the generated id lands in the caller's
+// template and the next call that uses it is sent with the same id.
+func callerAttrsCopied(c *cx, id string) {
+	n := 0
+	for _, name := range []string{"(*Session).SendIQ", "(*Session).SendMessage", "(*Session).SendPresence"} {
+		f := c.fn(id, "", name)
+		if f == nil {
+			continue
+		}
+		g := f.Graph()
+		for _, w := range f.Writes() {
+			root := rootLocal(f, w.LHS)
+			if root == nil || eng.TypeStr(root.Type()) != "encoding/xml.StartElement" {
+				continue
+			}
+			lhs := types.ExprString(w.LHS)
+			inPlace := false
+			switch {
+			case strings.Contains(lhs, ".Attr["):
+				inPlace = true
+			case strings.HasSuffix(lhs, ".Attr") && w.RHS != nil:
+				if cl, ok := ast.Unparen(w.RHS).(*ast.CallExpr); ok && f.CalleeID(cl) == "builtin.append" && len(cl.Args) > 0 {
+					if rootLocal(f, cl.Args[0]) == root && strings.HasSuffix(types.ExprString(cl.Args[0]), ".Attr") {
+						inPlace = true
+					}
+				}
+			}
+			if !inPlace {
+				continue
+			}
+			n++
+			pt, _ := g.Where(w.Stmt)
+			isCopy := func(q eng.Point, nd ast.Node) bool {
+				as, ok := nd.(*ast.AssignStmt)
+				if !ok || len(as.Lhs) != 1 || len(as.Rhs) != 1 {
+					return false
+				}
+				if rootLocal(f, as.Lhs[0]) != root {
+					return false
+				}
+				l := types.ExprString(as.Lhs[0])
+				cl, isCall := ast.Unparen(as.Rhs[0]).(*ast.CallExpr)
+				if !isCall {
+					return false
+				}
+				cid := f.CalleeID(cl)
+				if _, isId := ast.Unparen(as.Lhs[0]).(*ast.Ident); isId && cid == "encoding/xml.StartElement.Copy" {
+					if sel, ok := ast.Unparen(cl.Fun).(*ast.SelectorExpr); ok && rootLocal(f, sel.X) == root {
+						return true
+					}
+				}
+				if strings.HasSuffix(l, ".Attr") && cid == "builtin.append" && len(cl.Args) > 0 {
+					// append([]xml.Attr(nil), X.Attr...) / append(make(...), ...)
+					if ok, _ := freshSlice(f, cl.Args[0], q, map[*eng.Def]bool{}); ok {
+						return true
+					}
+				}
+				return false
+			}
+			c.r.Check(id, f, "write through "+strings.Replace(lhs, root.Name(), "start", 1), "E-alias: the attribute list of the caller's start element is modified only after the element was copied (X = X.Copy()) on every path", w.Stmt.Pos(), g.MustPassBefore(g.Entry(), pt, isCopy, nil), "the write lands in the attribute array of the token that the caller's reader returned: a template used for two calls carries the first call's generated id into the second")
+		}
+	}
+	c.r.Floor(id, "in-place attribute writes in SendIQ/SendMessage/SendPresence", n, 3)
+}
